@@ -1,6 +1,6 @@
 From Coq Require Import List ZArith String Ascii Bool NArith Lia.
 Import ListNotations.
-From Bexpr Require Import Base Ast Unicode Peg Typing Actions GoGrammar Sem Term Lex Lex2 Lex3 Calc Calc2 Skel Top Atoms StrLit AtomsEq Spell C07 Ptr Sels.
+From Bexpr Require Import Base Ast Unicode Peg Typing Actions GoGrammar Sem Term Lex Lex2 Lex3 Calc Calc2 Skel Top Atoms StrLit AtomsEq Spell C07 Ptr Sels KwMiss.
 Open Scope string_scope.
 
 (* A concrete family of quantifier headers:   any|all  name(.name)*  as  x  {   (one-name binding). *)
@@ -69,6 +69,10 @@ Proof.
   apply specc_here. eapply action_ok; [apply lab_ok; exact Hid|]. intros G. reflexivity.
 Qed.
 
+(* contains, not, matches, is, in *)
+Definition hdr_kws : list (list Z) :=
+  [[99; 111; 110; 116; 97; 105; 110; 115]; [110; 111; 116]; [109; 97; 116; 99; 104; 101; 115]; [105; 115]; [105; 110]]%Z.
+
 Record chdr := {
   h_op : collop; h_w1x : cell; h_w1 : list cell;
   h_sr : selr;
@@ -78,7 +82,31 @@ Record chdr := {
   h_ws3x : is_ws h_w3x; h_ws3 : Forall is_ws h_w3; h_ws4 : Forall is_ws h_w4;
   h_bspec : forall w4 K, Forall is_ws w4 -> spec (PRef "CollectionIdentifiers") (app h_bcells (app w4 (app K_lb K))) (VBind h_bval) (app w4 (app K_lb K));
   h_bfree : forall K, ws_free (app h_bcells K);
-  h_nokw : forall c r, s_txt h_sr = c :: r -> ~ In (crune c) [61; 33; 99; 110; 109; 105]%Z }.
+  (* the quantified selector, with what follows it, is not one of the operator keywords followed by a blank *)
+  h_nokw : forall K kw, sstop K -> In kw hdr_kws -> all_valid (app (s_txt h_sr) K) -> kw_miss kw (app (s_txt h_sr) K) }.
+
+Lemma hdr_kws_id kw : In kw hdr_kws -> Forall id_rune kw.
+Proof.
+  unfold hdr_kws. cbn [In]. intros [H|[H|[H|[H|[H|[]]]]]]; subst kw; repeat constructor.
+Qed.
+
+(* a quantified selector in a bexpr spelling qualifies unless its name alone is one of the keywords *)
+Lemma mixed_hdr_nokw c cs segs Hh Ht Hs Hn :
+  (forall kw, In kw hdr_kws -> map crune (c :: cs) <> kw \/ segs <> []) ->
+  forall K kw, sstop K -> In kw hdr_kws -> all_valid (app (s_txt (of_mixed c cs segs Hh Ht Hs Hn)) K) ->
+  kw_miss kw (app (s_txt (of_mixed c cs segs Hh Ht Hs Hn)) K).
+Proof.
+  intros Hne K kw [Hk1 Hk2] Hkw. cbn [s_txt of_mixed app]. rewrite <- app_assoc, segs_cells_app. cbn [app]. intros Hv.
+  apply mixed_vs_kw; try assumption; [exact (hdr_kws_id kw Hkw)| exact (Hne kw Hkw)].
+Qed.
+
+Lemma pointer_hdr_nokw q ps q' parts Hq Hq' Hok Hne E :
+  forall K kw, sstop K -> In kw hdr_kws -> all_valid (app (s_txt (of_pointer q ps q' parts Hq Hq' Hok Hne E)) K) ->
+  kw_miss kw (app (s_txt (of_pointer q ps q' parts Hq Hq' Hok Hne E)) K).
+Proof.
+  intros K kw _ Hkw _. left. cbn [s_txt of_pointer app]. unfold hdr_kws in Hkw. cbn [In] in Hkw.
+  destruct Hkw as [H|[H|[H|[H|[H|[]]]]]]; subst kw; cbn [lit_miss]; left; rewrite Hq; discriminate.
+Qed.
 
 Definition h_sel (h : chdr) : selector := s_val (h_sr h).
 Definition h_bind (h : chdr) : binding := h_bval h.
@@ -125,45 +153,40 @@ Variables (x : cell) (w rest : list cell).
 Hypothesis Hx : is_ws x.
 Hypothesis Hw : Forall is_ws w.
 Hypothesis Hfree : ws_free rest.
-Hypothesis Hne : forall c, In c [61; 33; 99; 110; 109; 105]%Z -> head_not c rest.
+Hypothesis Hsym : head_not 61 rest /\ head_not 33 rest.
+Hypothesis Hkws : forall kw, In kw hdr_kws -> all_valid rest -> kw_miss kw rest.
 Let K' := x :: app w rest.
 
-Lemma kw_stop c : In c [61; 33; 99; 110; 109; 105]%Z -> stop_kw c K'.
-Proof. intros Hc. right. exists x, w, rest. repeat split; try assumption. apply Hne. exact Hc. Qed.
+Lemma kwl_stop kw : In kw hdr_kws -> stop_kwl kw K'.
+Proof. intros Hc. right. exists x, w, rest. repeat split; try assumption. apply Hkws. exact Hc. Qed.
 
-Lemma eq_like_fails c l : In c [61; 33; 99; 110; 109; 105]%Z ->
+Lemma eq_like_fails c l : head_not c rest ->
   fseqs [POpt (PRef "_"); PLit (c :: l) false; POpt (PRef "_")] K'.
 Proof.
   intros Hc. eapply fseqs_later; [apply (ws_opt_ok (x :: w) rest (Forall_cons _ Hx Hw) Hfree)|].
-  apply fseqs_here. exact (fails_f (head_not c) _ rest (fails_lit c l) (Hne c Hc)).
+  apply fseqs_here. exact (fails_f (head_not c) _ rest (fails_lit c l) Hc).
 Qed.
+
+Ltac kwfail := eapply fref; [reflexivity|]; cbn [rexpr]; apply faction; apply fseq; apply stop_kwl_fseqs; apply kwl_stop; cbn; auto 10.
 
 Lemma value_ops_fail :
   fspecj (PChoice [PRef "MatchEqual"; PRef "MatchNotEqual"; PRef "MatchContains"; PRef "MatchNotContains";
                    PRef "MatchMatches"; PRef "MatchNotMatches"]) K'.
 Proof.
   apply fchoice. repeat (apply Forall_cons); try apply Forall_nil.
-  - eapply fref; [reflexivity|]. cbn [rexpr]. apply faction. apply fseq. apply eq_like_fails. cbn. auto 10.
-  - eapply fref; [reflexivity|]. cbn [rexpr]. apply faction. apply fseq. apply eq_like_fails. cbn. auto 10.
-  - eapply fref; [reflexivity|]. cbn [rexpr]. apply faction. apply fseq. apply stop_kw_fseqs. apply kw_stop. cbn. auto 10.
-  - eapply fref; [reflexivity|]. cbn [rexpr]. apply faction. apply fseq. apply stop_kw_fseqs. apply kw_stop. cbn. auto 10.
-  - eapply fref; [reflexivity|]. cbn [rexpr]. apply faction. apply fseq. apply stop_kw_fseqs. apply kw_stop. cbn. auto 10.
-  - eapply fref; [reflexivity|]. cbn [rexpr]. apply faction. apply fseq. apply stop_kw_fseqs. apply kw_stop. cbn. auto 10.
+  - eapply fref; [reflexivity|]. cbn [rexpr]. apply faction. apply fseq. apply eq_like_fails. exact (proj1 Hsym).
+  - eapply fref; [reflexivity|]. cbn [rexpr]. apply faction. apply fseq. apply eq_like_fails. exact (proj2 Hsym).
+  - kwfail.
+  - kwfail.
+  - kwfail.
+  - kwfail.
 Qed.
 
 Lemma is_ops_fail : fspecj (PChoice [PRef "MatchIsEmpty"; PRef "MatchIsNotEmpty"]) K'.
-Proof.
-  apply fchoice. repeat (apply Forall_cons); try apply Forall_nil.
-  - eapply fref; [reflexivity|]. cbn [rexpr]. apply faction. apply fseq. apply stop_kw_fseqs. apply kw_stop. cbn. auto 10.
-  - eapply fref; [reflexivity|]. cbn [rexpr]. apply faction. apply fseq. apply stop_kw_fseqs. apply kw_stop. cbn. auto 10.
-Qed.
+Proof. apply fchoice. repeat (apply Forall_cons); try apply Forall_nil; kwfail. Qed.
 
 Lemma in_ops_fail : fspecj (PChoice [PRef "MatchIn"; PRef "MatchNotIn"]) K'.
-Proof.
-  apply fchoice. repeat (apply Forall_cons); try apply Forall_nil.
-  - eapply fref; [reflexivity|]. cbn [rexpr]. apply faction. apply fseq. apply stop_kw_fseqs. apply kw_stop. cbn. auto 10.
-  - eapply fref; [reflexivity|]. cbn [rexpr]. apply faction. apply fseq. apply stop_kw_fseqs. apply kw_stop. cbn. auto 10.
-Qed.
+Proof. apply fchoice. repeat (apply Forall_cons); try apply Forall_nil; kwfail. Qed.
 
 Definition kw_ident (op : collop) : ident := match kw_of op with c :: r => (c, r) | [] => (x, []) end.
 Lemma kw_ident_ok op : ident_ok (kw_ident op).
@@ -222,8 +245,8 @@ Proof.
   rewrite h_txt_app. unfold h_txtK.
   apply (and_fails_on_header (h_w1x h) (h_w1 h) (h_sel_cells h K) (h_ws1x h) (h_ws1 h)) with (op := h_op h).
   - apply s_head_free.
-  - intros c Hc. unfold h_sel_cells. destruct (s_head (h_sr h)) as [c0 [r [E _]]]. rewrite E. cbn.
-    intros Ec. apply (h_nokw h c0 r E). rewrite Ec. exact Hc.
+  - apply s_head_not_sym.
+  - intros kw Hkw Hv. unfold h_sel_cells in *. apply (h_nokw h); [apply sstop_ws0; exact (h_ws2x h)| exact Hkw| exact Hv].
 Qed.
 
 Lemma hdr_head_c h K : ws_free (app (h_txt h) K) /\ head_not 40 (app (h_txt h) K).
